@@ -30,6 +30,11 @@ extern "C" __attribute__((used, visibility("default"))) const char *__ubsan_defa
 	return "print_stacktrace=1:halt_on_error=1:exitcode=77";
 }
 
+extern "C" __attribute__((used, visibility("default"))) const char *__tsan_default_options()
+{
+	return "halt_on_error=1:exitcode=77:report_signal_unsafe=0:history_size=4";
+}
+
 static double wall_now()
 {
 	struct timespec ts;
@@ -273,6 +278,32 @@ static std::string classify_crash(const std::string &err, int status)
 {
 	std::string kind = "abort";
 	size_t p;
+	if ((p = err.find("WARNING: ThreadSanitizer: ")) != std::string::npos) {
+		size_t s = p + strlen("WARNING: ThreadSanitizer: ");
+		size_t e = err.find_first_of("(\n", s);
+		std::string k = err.substr(s, e - s);
+		while (!k.empty() && k.back() == ' ')
+			k.pop_back();
+		for (auto &c : k)
+			if (c == ' ')
+				c = '-';
+		// a report is a finding only if a frame of the library appears in one of its stacks
+		size_t lp = err.find("/libjwt/");
+		if (lp == std::string::npos)
+			return "harness-bug:tsan-" + k;
+		// frames look like "    #0 jwt_alg_str /repo/libjwt/jwt.c:28:15 (jwtsim+0x...)"
+		size_t bol = err.rfind('\n', lp);
+		std::string line = err.substr(bol == std::string::npos ? 0 : bol + 1, lp - (bol == std::string::npos ? 0 : bol + 1));
+		std::string fn = "?";
+		size_t h = line.find('#');
+		if (h != std::string::npos) {
+			size_t s1 = line.find(' ', h);
+			size_t s2 = s1 == std::string::npos ? s1 : line.find(' ', s1 + 1);
+			if (s1 != std::string::npos && s2 != std::string::npos)
+				fn = line.substr(s1 + 1, s2 - s1 - 1);
+		}
+		return "tsan-" + k + "@" + fn;
+	}
 	if ((p = err.find("ERROR: AddressSanitizer: ")) != std::string::npos) {
 		size_t s = p + strlen("ERROR: AddressSanitizer: ");
 		size_t e = err.find_first_of(" \n", s);
